@@ -40,6 +40,9 @@ CHECKS['C06'] = dict(tech=T + ' (Cast_Helper_Inner<T>::cast for the value/const&
 CHECKS['C07'] = dict(tech=T + ' (Equation_AST_Node::eval_internal with abstract children; Boxed_Value::Data constructor; Boxed_Number::oper with recorder kernels)',
    text='Assignment node: for symbolic operator kind, child behaviours and value flags, a const or temporary target is rejected with eval_error and nothing that could modify it (arithmetic kernel, = function, := rebinding, clone) is invoked. Data constructor: mutable pointer is null exactly for const types, for every flag combination. Arithmetic dispatch: in-place kernels receive a mutable pointer only for a non-const, non-return-value left operand, for every pair of registered arithmetic types.',
    note='mutating members of bound containers are refused by the casts of C06 (not composed end-to-end); Prefix ++/-- and attribute access not covered yet')
+CHECKS['C09'] = dict(tech=T + ' of evaluator nodes (Block, Scopeless_Block, If, While, Logical_And/Or, Try, Equation) with abstract children that return or throw at every point',
+   text='Inductive step per node kind: with every child eval() an abstract call that returns or throws any of 7-9 exception kinds (the crash-point quantifier becomes a solver choice), the real eval_internal restores scope, stack and call depth on every exit, normal or throwing; the node-level control flow (order, short circuit, branch selection, break/continue, value) is checked in the same queries.',
+   note='new_scope/pop_scope/function-call bookkeeping are counters here (their real code is not yet covered); nodes not listed are not covered yet; the induction over the tree is an argument')
 ALL = ['C%02d' % i for i in range(1, 21)]
 def main():
     checks = []
